@@ -20,6 +20,8 @@ EXTENDS EventTriggerProps, Json, SequencesExt
 CONSTANTS
     MaxBlocks, MaxNum, MaxLeaves, MaxEntries, MaxPerBlock, NTrig, ExpOffsets,
     D, MaxR, Start0, Fetch, AllowKnown, Emit,
+    AllowBadReg,  \* generate registrations that must be skipped?
+    MinForkNum,   \* forks start and the head switches only at blocks with at least this number (0: anywhere)
     Faults    \* may a Sync call of keyper A fail (RPC error, failed transaction)?  Code-shaped: the
               \* error is returned, the transactions committed so far stay, the rest is not done,
               \* the next call resumes after the recorded position
@@ -40,7 +42,11 @@ Leaves(t) == {x \in DOMAIN t : \A y \in DOMAIN t : t[y].par # x}
 NumEntries(t) == LET RECURSIVE Sum(_) Sum(i) == IF i = 0 THEN 0 ELSE Cardinality(t[i].evs) + Sum(i - 1) IN Sum(Len(t))
 BranchToks(t, p) == UNION {t[x].evs : x \in AncSelf(t, p)}
 
-Tokens == {RegTok(t) : t \in UseTrigs} \cup {LogTok(t) : t \in UseTrigs} \cup {"o"}
+(* "b" is a registration the processor must skip (undecodable or invalid definition, eon or expiry
+   above MaxInt64): no effect in the code-shaped spec, so it has to be visible in the VIEW through
+   blk and through the tag of the call that meets it *)
+BadReg == "b"
+Tokens == {RegTok(t) : t \in UseTrigs} \cup {LogTok(t) : t \in UseTrigs} \cup {"o"} \cup (IF AllowBadReg THEN {BadReg} ELSE {})
 
 (* monitors of one call: states = <<pre, committed...>>; returns [fail, known, cuts] *)
 CallCheck(states, cuts) ==
@@ -80,6 +86,7 @@ Mine(p, evs, exp) ==
     /\ Len(blk) < MaxBlocks
     /\ p \in AncSelf(blk, canon)
     /\ blk[p].num < MaxNum
+    /\ p # canon => blk[p].num >= MinForkNum
     /\ Cardinality(evs) <= MaxPerBlock
     /\ NumEntries(blk) + Cardinality(evs) <= MaxEntries
     /\ \A t \in UseTrigs : RegTok(t) \in evs => RegTok(t) \notin BranchToks(blk, p)
@@ -103,6 +110,7 @@ Mine(p, evs, exp) ==
 
 Switch(x) ==
     /\ x \in DOMAIN blk /\ x # canon
+    /\ blk[x].num >= MinForkNum
     /\ canon' = x /\ blk' = blk
     /\ DepthOK(b, x) = TRUE
     /\ RefSync
@@ -126,7 +134,17 @@ SyncA(cut) ==
           (* the code path of this call is part of the VIEW: rollback or not, 0 / 1 / several ranges,
              D6 hit, failed *)
           /\ tag' = << Len(seq) > 0 /\ seq[1].synced.hash = Empty,
-                       IF Len(seq) > 2 THEN 2 ELSE Len(seq), chk.known, cut < Len(full) >>
+                       IF Len(seq) > 2 THEN 2 ELSE Len(seq), chk.known, cut < Len(full),
+                       (* fired rows just below (-1), exactly at (0), just above (1) the rollback target *)
+                       IF Len(seq) > 0 /\ seq[1].synced.hash = Empty
+                       THEN SetToSeq({f.num - seq[1].synced.num : f \in {g \in a.fired : g.num - seq[1].synced.num \in {-1, 0, 1}}})
+                       ELSE <<>>,
+                       (* a range of this call holds a bad registration at or before a good one *)
+                       \E i \in 1..Len(seq) : seq[i].synced.hash # Empty /\
+                           LET lo == (IF i = 1 THEN (IF a.synced.has THEN a.synced.num + 1 ELSE Start0) ELSE seq[i - 1].synced.num + 1)
+                               bs == CanonBlocks(blk, canon, lo, seq[i].synced.num)
+                           IN \E b1, b2 \in bs : BadReg \in blk[b1].evs /\ blk[b1].num <= blk[b2].num /\
+                                                  \E t \in UseTrigs : RegTok(t) \in blk[b2].evs >>
           /\ last' = [H("sync", 0, <<>>, 0) EXCEPT !.t = tag', !.cut = IF cut = Len(full) THEN -1 ELSE cut,
                          !.post = [synced |-> a'.synced, regs |-> SetToSeq(a'.regs), fired |-> SetToSeq(a'.fired)]]
     /\ hist' = Append(hist, last')
